@@ -43,7 +43,7 @@ type c16Case struct {
 	OddPID  bool `json:"odd_pid,omitempty"` // the known account's identifier (and the stranger's) fails the body reader's form rules
 }
 
-var c16PreludeKinds = []string{"rec-known", "rec-known", "rec-unknown", "login-ok", "login-page", "adv1", "adv45", "adv90", "newsess", "half-session", "half-session", "other-session"}
+var c16PreludeKinds = []string{"rec-known", "rec-known", "rec-unknown", "login-ok", "login-page", "adv1", "adv45", "adv90", "newsess", "half-session", "half-session", "other-session", "otp-used", "otp-used"}
 
 func pidFieldOf(c c16Case) string {
 	if c.Cfg.Username {
@@ -79,6 +79,12 @@ func c16Prelude(w *harness.World, c c16Case, mk func(w *harness.World, route, pi
 			// (an account without a usable hash cannot log in with a password: the request would be a failed attempt)
 			if c.Kind != "locked-pw" && c.Cfg.Has("auth") && c.KnownPW == "" {
 				w.Do(mk(w, "/login", known.PID, known.Password))
+				w.Jars[0].ClearSession()
+			}
+		case "otp-used":
+			// the known account spent one of its one-time passwords earlier - not the first and not the last of the list
+			if c.Cfg.Has("otp") && len(w.Seeded) > 0 && len(w.Seeded[0].OTPs) >= 3 && !c.Cfg.Accounts[0].TOTP && c.Cfg.Accounts[0].Phone == "" {
+				w.Do(harness.Req{Method: "POST", Path: w.Path("/otp/login"), Form: map[string]string{pidFieldOf(c): known.PID, "password": w.Seeded[0].OTPs[1]}})
 				w.Jars[0].ClearSession()
 			}
 		case "half-session", "other-session":
